@@ -59,3 +59,33 @@ Definition prim_eqb (a b : prim) : bool :=
 (* int32 / int64 ranges *)
 Definition in_i32 (z : Z) : bool := ((-2147483648 <=? z) && (z <=? 2147483647))%Z.
 Definition in_i64 (z : Z) : bool := ((-9223372036854775808 <=? z) && (z <=? 9223372036854775807))%Z.
+
+(* structural equality of values (bit patterns for floats; the drivers canonicalise map entries by key) *)
+Fixpoint value_eqb (a b : value) {struct a} : bool :=
+  let fix list_eqb (x y : list value) : bool :=
+    match x, y with [], [] => true | p :: x', q :: y' => value_eqb p q && list_eqb x' y' | _, _ => false end in
+  let fix olist_eqb (x y : list (option value)) : bool :=
+    match x, y with
+    | [], [] => true
+    | None :: x', None :: y' => olist_eqb x' y'
+    | Some p :: x', Some q :: y' => value_eqb p q && olist_eqb x' y'
+    | _, _ => false
+    end in
+  match a, b with
+  | VInt x, VInt y | VLong x, VLong y => Z.eqb x y
+  | VFloat x, VFloat y | VDouble x, VDouble y => N.eqb x y
+  | VBool x, VBool y => Bool.eqb x y
+  | VStr x, VStr y | VBytes x, VBytes y | VFixed x, VFixed y => bytes_eqb x y
+  | VEnum x, VEnum y => Nat.eqb x y
+  | VRec i1 f1, VRec i2 f2 => list_eqb i1 i2 && olist_eqb f1 f2
+  | VUnion m1, VUnion m2 => olist_eqb m1 m2
+  | VArr l1, VArr l2 => list_eqb l1 l2
+  | VMap e1, VMap e2 =>
+      (fix es_eqb (x y : list (bytes * value)) : bool :=
+         match x, y with
+         | [], [] => true
+         | (k1, v1) :: x', (k2, v2) :: y' => bytes_eqb k1 k2 && value_eqb v1 v2 && es_eqb x' y'
+         | _, _ => false
+         end) e1 e2
+  | _, _ => false
+  end.
